@@ -1740,6 +1740,212 @@ fn run_c17(args: &Args) -> Report {
     rep
 }
 
+// ----------------------------------------------------------------------------------
+// C14 / C19 on the wire: a client with its own capabilities. What the real server sends
+// is decoded the way an LSP client must decode it - columns in the position encoding the
+// server ANNOUNCED at initialize (utf-16 unless it announces otherwise), token types
+// through the legend it ANNOUNCED - and compared with what the analysis (same crate `ide`,
+// in process, byte offsets) says about the same text.
+
+const WIRE_TAIL: &str = "\npub fn wire_probe(a) {\n  #(\"ß€😀\", wire_probe(a), \"𝄞\", wire_probe, \"é\", wire_other(a))\n}\n\npub fn wire_other(b) { #(\"€€\", b, wire_probe) }\n";
+
+fn run_wire(args: &Args) -> Report {
+    use vh::lspclient::client_profile;
+    use vh::lspmodel::Enc;
+    let prop = args.prop.clone();
+    let mut rep = Report::new(&prop, args.shard);
+    let bin = PathBuf::from(args.get("glas-bin").expect("--glas-bin"));
+    let base = args.out.join(format!("wire-{prop}-shard{}", args.shard));
+    let mut r = Rng::derive(args.seed, args.shard as u64, 1419);
+    let t0 = Instant::now();
+    let mut n = 0u64;
+    while t0.elapsed().as_secs_f64() < args.budget_s {
+        let Some(case_seed) = args.next_case(&mut r) else { break };
+        let mut cr = Rng::new(case_seed);
+        let _ = std::fs::remove_dir_all(&base);
+        let proj = base.join("proj");
+        std::fs::create_dir_all(proj.join("src")).unwrap();
+        let text = format!("{}{}", big_module(&mut cr), WIRE_TAIL);
+        std::fs::write(proj.join("gleam.toml"), "name = \"proj\"\n").unwrap();
+        std::fs::write(proj.join("src/w.gleam"), &text).unwrap();
+        let profile = client_profile(&mut cr);
+        let replay = json!({"kind":"wire","case_seed":case_seed.to_string(),"client":profile.descr,"capabilities":profile.capabilities,"text":truncate_str(&text, 4000)});
+        rep.evaluations += 1;
+        rep.see("client_profiles", profile.descr.clone());
+        // the analysis' own answers, in byte offsets
+        let loaded = vh::ws::load_single(&[("/ws/pkg/src/w.gleam".to_string(), text.clone()), ("/ws/pkg/gleam.toml".to_string(), "name = \"proj\"\n".to_string())]);
+        let file = loaded.file_by_path("/ws/pkg/src/w.gleam").unwrap();
+        let an = loaded.host.snapshot();
+        let Ok(hls) = an.syntax_highlight(file, None) else { rep.inconclusive += 1; continue };
+        let mut s = match Server::spawn(&bin, &[], None) {
+            Ok(s) => s,
+            Err(_) => { rep.inconclusive += 1; continue; }
+        };
+        let Some(init) = s.initialize_with(Some(&file_uri(&proj.display().to_string())), profile.capabilities.clone(), profile.client_info.clone(), Duration::from_secs(20)) else {
+            if !s.alive() {
+                rep.violate(format!("server-died-at-initialize:{}", profile.descr), "the server exited while answering initialize", replay.clone());
+            } else {
+                rep.inconclusive += 1;
+            }
+            continue;
+        };
+        let caps = &init["result"]["capabilities"];
+        let announced = caps.get("positionEncoding").and_then(|v| v.as_str()).unwrap_or("utf-16").to_string();
+        rep.see("announced_position_encodings", announced.clone());
+        let Some(enc) = Enc::parse(&announced) else {
+            rep.violate("announced-encoding-unknown", format!("positionEncoding {announced:?}"), replay.clone());
+            continue;
+        };
+        // LSP 3.17: the server picks one of the encodings the client offered; utf-16 if none offered
+        let offered: Vec<&str> = profile.offered_encodings.clone().unwrap_or_else(|| vec!["utf-16"]);
+        if !offered.contains(&announced.as_str()) && announced != "utf-16" {
+            rep.violate("announced-encoding-not-offered", format!("client offered {offered:?}, server announces {announced:?}"), replay.clone());
+            continue;
+        }
+        let legend: Vec<String> = caps["semanticTokensProvider"]["legend"]["tokenTypes"].as_array().map(|a| a.iter().filter_map(|v| v.as_str().map(|s| s.to_string())).collect()).unwrap_or_default();
+        rep.see("announced_legends", legend.join(","));
+        let uri = file_uri(&proj.join("src/w.gleam").display().to_string());
+        s.notify("textDocument/didOpen", json!({"textDocument":{"uri":uri,"languageId":"gleam","version":1,"text":text}}));
+        let doc = Doc::new(text.clone());
+        let conv = |v: &Value| -> Option<(usize, usize)> {
+            let p = |q: &Value| Some(Pos { line: q.get("line")?.as_u64()? as u32, col: q.get("character")?.as_u64()? as u32 });
+            let a = doc.offset_of_enc(p(v.get("start")?)?, enc).ok()?;
+            let b = doc.offset_of_enc(p(v.get("end")?)?, enc).ok()?;
+            Some((a, b))
+        };
+        let mut ok = true;
+        // ---- semantic tokens (C19's clause; the positions in them are C14's)
+        let id = s.request("textDocument/semanticTokens/full", json!({"textDocument":{"uri":uri}}));
+        let Some(resp) = s.wait_response(id, Duration::from_secs(30)) else {
+            rep.inconclusive += 1;
+            continue;
+        };
+        let data: Vec<u32> = resp["result"]["data"].as_array().map(|a| a.iter().filter_map(|v| v.as_u64().map(|x| x as u32)).collect()).unwrap_or_default();
+        let want: BTreeSet<(usize, usize, &str)> = hls
+            .iter()
+            .map(|h| {
+                (u32::from(h.range.start()) as usize, u32::from(h.range.end()) as usize, match h.tag {
+                    ide::HlTag::Function => "function",
+                    ide::HlTag::Module => "namespace",
+                    ide::HlTag::Constructor => "type",
+                })
+            })
+            .collect();
+        let mut got: BTreeSet<(usize, usize, String)> = BTreeSet::new();
+        let (mut line, mut start) = (0u32, 0u32);
+        let mut broken: Option<String> = None;
+        if data.len() % 5 != 0 {
+            broken = Some(format!("data length {} is not a multiple of 5", data.len()));
+        }
+        for c in data.chunks_exact(5) {
+            line += c[0];
+            start = if c[0] == 0 { start + c[1] } else { c[1] };
+            let a = doc.offset_of_enc(Pos { line, col: start }, enc);
+            let b = doc.offset_of_enc(Pos { line, col: start + c[2] }, enc);
+            let (Ok(a), Ok(b)) = (a, b) else {
+                broken = Some(format!("token at ({line},{start}) length {} is not a range of the document in {announced}", c[2]));
+                break;
+            };
+            let Some(ty) = legend.get(c[3] as usize) else {
+                broken = Some(format!("token type index {} is outside the announced legend {legend:?}", c[3]));
+                break;
+            };
+            got.insert((a, b, ty.clone()));
+        }
+        let non_ascii_before = |a: usize| -> bool {
+            let ls = text[..a].rfind('\n').map(|i| i + 1).unwrap_or(0);
+            !text[ls..a].is_ascii()
+        };
+        if let Some(why) = broken {
+            rep.violate(if why.contains("legend") { "wire:token-type-outside-announced-legend" } else { "wire:token-stream-does-not-decode" }, format!("client {}: {why}", profile.descr), replay.clone());
+            ok = false;
+        } else {
+            let want_s: BTreeSet<(usize, usize, String)> = want.iter().map(|(a, b, t)| (*a, *b, t.to_string())).collect();
+            if got != want_s {
+                let pos_only = |s: &BTreeSet<(usize, usize, String)>| s.iter().map(|x| (x.0, x.1)).collect::<BTreeSet<_>>();
+                let what = if pos_only(&got) == pos_only(&want_s) { "types" } else { "positions" };
+                let miss: Vec<_> = want_s.difference(&got).take(3).collect();
+                let extra: Vec<_> = got.difference(&want_s).take(3).collect();
+                rep.violate(
+                    format!("wire:decoded-tokens-differ-in-{what}"),
+                    format!("client {}, announced encoding {announced}, legend {legend:?}: expected but not decoded {miss:?} (text {:?}); decoded but not expected {extra:?}", profile.descr, miss.first().map(|m| &text[m.0..m.1])),
+                    replay.clone(),
+                );
+                ok = false;
+            } else {
+                rep.count("wire_token_streams_decoded_equal", 1);
+                rep.count("wire_tokens_decoded", got.len() as u64);
+                rep.count("wire_tokens_after_non_ascii_on_their_line", got.iter().filter(|t| non_ascii_before(t.0)).count() as u64);
+            }
+        }
+        // ---- positions in both directions: documentHighlight and hover at identifier tokens
+        if ok {
+            let mut probes: Vec<(usize, usize)> = want.iter().map(|w| (w.0, w.1)).collect();
+            cr.shuffle(&mut probes);
+            // tokens that follow non-ASCII text on their line first
+            probes.sort_by_key(|p| !non_ascii_before(p.0));
+            for (a, b) in probes.into_iter().take(if args.thorough() { 24 } else { 10 }) {
+                let at = a + cr.below(b - a);
+                if !text.is_char_boundary(at) {
+                    continue;
+                }
+                let p = doc.position_of_enc(at, enc);
+                let fpos = ide::FilePos::new(file, syntax::TextSize::from(at as u32));
+                let Ok(want_hl) = an.highlight_related(fpos) else { continue };
+                let want_set: BTreeSet<(usize, usize)> = want_hl.iter().map(|h| (u32::from(h.range.start()) as usize, u32::from(h.range.end()) as usize)).collect();
+                let id = s.request("textDocument/documentHighlight", json!({"textDocument":{"uri":uri},"position":{"line":p.line,"character":p.col}}));
+                let Some(resp) = s.wait_response(id, Duration::from_secs(30)) else { rep.inconclusive += 1; ok = false; break };
+                let got_set: Option<BTreeSet<(usize, usize)>> = match &resp["result"] {
+                    Value::Null => Some(BTreeSet::new()),
+                    Value::Array(items) => items.iter().map(|it| conv(&it["range"])).collect(),
+                    _ => None,
+                };
+                rep.count("wire_position_probes", 1);
+                if non_ascii_before(at) {
+                    rep.count("wire_position_probes_after_non_ascii", 1);
+                }
+                match got_set {
+                    Some(g) if g == want_set => {}
+                    other => {
+                        rep.violate(
+                            "wire:highlight-ranges-differ",
+                            format!("client {}, announced encoding {announced}: documentHighlight at byte {at} = ({},{}) selects {other:?}, the analysis says {want_set:?}", profile.descr, p.line, p.col),
+                            replay.clone(),
+                        );
+                        ok = false;
+                        break;
+                    }
+                }
+                // hover: the range must select the token the analysis hovers
+                if let Ok(Some(h)) = an.hover(fpos) {
+                    let id = s.request("textDocument/hover", json!({"textDocument":{"uri":uri},"position":{"line":p.line,"character":p.col}}));
+                    let Some(resp) = s.wait_response(id, Duration::from_secs(30)) else { rep.inconclusive += 1; ok = false; break };
+                    let got_r = conv(&resp["result"]["range"]);
+                    let want_r = (u32::from(h.range.start()) as usize, u32::from(h.range.end()) as usize);
+                    if got_r != Some(want_r) {
+                        rep.violate(
+                            "wire:hover-range-differs",
+                            format!("client {}, announced encoding {announced}: hover at byte {at} = ({},{}) reports {:?} -> {got_r:?}, the analysis says {want_r:?}", profile.descr, p.line, p.col, resp["result"]["range"]),
+                            replay.clone(),
+                        );
+                        ok = false;
+                        break;
+                    }
+                    rep.count("wire_hover_ranges_equal", 1);
+                }
+            }
+        }
+        s.shutdown();
+        if ok {
+            rep.nontrivial(fnv(format!("{case_seed}:{}", profile.descr).as_bytes()));
+        }
+        n += 1;
+    }
+    rep.count("wire_sessions", n);
+    let _ = std::fs::remove_dir_all(&base);
+    rep
+}
+
 fn main() {
     vh::panicmon::install();
     let args = Args::parse();
@@ -1748,6 +1954,7 @@ fn main() {
         ("C13", _) => run_c13bb(&args),
         ("C16", _) => run_c16(&args),
         ("C17", _) => run_c17(&args),
+        ("C14", _) | ("C19", _) => run_wire(&args),
         (p, _) => panic!("m_lsp does not serve {p}"),
     };
     rep.write(&args.out);
